@@ -36,6 +36,10 @@ CLAIMED = {
    technique="deterministic simulation: dealer, share holders / players and combiner; crash faults choose the alive subset, the transport shuffles, duplicates and corrupts shares, holders restart from marshalled shares; enumeration of all subsets for small (l,k)",
    text="Shamir/Feldman over four groups and Shoup threshold RSA over fixture keys: every dealt share verifies against the commitment and an altered one does not; any alive set of at least t+1 (resp. k) distinct intact shares, in any arrival order, recovers exactly the secret (resp. yields a signature crypto/rsa verifies under PKCS#1 v1.5 and PSS); smaller sets are refused. Directed part enumerates all subsets for l<=4 (thorough l<=6); seeded part samples l up to 30, blinded/unblinded, cached/uncached, restarts and corruption.",
    note="Combiner removes duplicates first; crypto/rsa is the signature oracle; keys are fixtures."),
+ "C16": dict(engine="netsim", level="exploration", ref="DESIGN.md §3 C16",
+   technique="deterministic simulation: OPRF client/server and prover/verifier nodes whose every message is marshalled, re-parsed and hit by single-component alteration, swap, replacement and degenerate-field faults (incl. an adversarial prover forging with collapsed commitments); history faults on reused finalisation data; simot three-round exchange",
+   text="OPRF over 4 suites x 3 modes: with intact delivery the client's outputs equal the server's FullEvaluate (so they do not depend on blinds or batch position) and VerifyFinalize holds, also when finalising twice or sharing a blind object; in verifiable modes any altered evaluated element, proof scalar, public key, info or blinded element makes Finalize fail. zk/dleq (single, batch), zk/dl and zk/qndleq: honest proofs verify; every altered component / statement / context and every false statement with degenerate values (zero challenge or response, identity elements, non-unit statement elements, prover-chosen SecParam) is rejected. simot: the receiver obtains exactly the chosen message and cannot open the other.",
+   note="One recorded known finding (Qn-DLEQ prover-supplied SecParam). Alterations are judged at the level of decoded components (ristretto255 scalar decoding is lenient by tested design). RFC 9497 byte vectors are left to the repository's own test."),
 }
 
 NA = {
